@@ -2265,6 +2265,7 @@ def normalize_module(tree: ast.Module, extern=None) -> ast.Module:
     from . import normalize2 as _n2
     _n2.singledispatch_to_chain(tree)
     _n2.dissolve_namespace_classes(tree)
+    _n2.adopt_static_functions(tree)
     _n2.flatten_private_bases(tree)
     _n2.inline_private_properties(tree)
     tree = _n2.MatchToIf().visit(tree)
